@@ -79,6 +79,7 @@ type FuncContract struct {
 	Line     int
 	Lets     []LetDef
 	Uses     []string
+	Checks   []AnchoredAssert // return-time assertions over locals (not exported to callers)
 	Pure     bool // assume func: result is a function of args only (deterministic)
 	Asserts  []AnchoredAssert
 }
@@ -144,7 +145,7 @@ var directiveKW = map[string]bool{
 	"global": true, "model": true, "requires": true, "ensures": true, "assigns": true,
 	"loop": true, "inline": true, "results": true, "trusted": true, "reads": true,
 	"induction": true, "let": true, "axiom": true, "deterministic": true, "trigger": true,
-	"assert": true, "use": true,
+	"assert": true, "use": true, "check": true,
 }
 
 type rawDirective struct {
@@ -336,6 +337,18 @@ func parseContractFile(path, pkg string) (*ContractFile, error) {
 				default:
 					perr = fail(d, "expected invariant or modifies")
 				}
+			case "check":
+				if cur == nil {
+					perr = fail(d, "check outside func")
+					return
+				}
+				rest := d.text
+				if !strings.HasPrefix(rest, "@") {
+					perr = fail(d, "check needs @retN anchor")
+					return
+				}
+				k := strings.IndexAny(rest, " \t")
+				cur.Checks = append(cur.Checks, AnchoredAssert{Anchor: rest[1:k], Cl: parseClause(strings.TrimSpace(rest[k:]))})
 			case "use":
 				if cur == nil {
 					perr = fail(d, "use outside func")
